@@ -29,4 +29,31 @@ var specs = map[string]*propSpec{
 		Faults: "adversarial completion orders; burst releases for the race detector",
 		Assume: []string{"interleavings are explored at the granularity of user callbacks (resolver/directive calls); finer interference is left to the race detector under burst releases"},
 	},
+	"C04": {
+		ID: "C04", Scenario: "execsim", Level: "fault_enumeration", Cpu: 2,
+		Quick:    tierSpec{Runs: 6000, Budget: 75 * time.Second, Variants: []string{"v0", "v3", "v4"}},
+		Thorough: tierSpec{Runs: 300000, Budget: 15 * time.Minute, Variants: []string{"v0", "v1", "v2", "v3", "v4", "v6"}},
+		Real:     append(append([]string{}, realExec...), "graphql/handler.Server + transport.POST (one third of the executions, and every serialisation-panic execution)"), Stubbed: stubExec,
+		Rule: "one run = one (variant, operation, base plan) on one long-lived server: a fault-free pass enumerates the fault points (every resolver call, every directive call, every custom-scalar value), then EVERY single point x {error, panic} is injected in turn (marshalers: panic only, through handler.Server+POST), then three seeded multi-fault sets, then a fault-free request on the same server; each execution is compared with the reference executor under the same overlay and the RecoverFunc count with the number of injected panics; an unrecovered panic kills the worker and is attributed to the run. non-trivial = the operation has at least one fault point; distinct = hash of (variant, operation, base plan)",
+		Faults: "resolver error/panic, directive error/panic, argument unmarshaler error/panic (custom scalar), marshaler panic; contexts: sequential field, concurrent sibling, list element goroutine, deferred group; worker_limit 0/1/2",
+		Assume: []string{"subscription-event context is exercised by the websocket scenario (C11), not here", "HTTP status of a serialisation panic is not asserted (statement does not fix it)"},
+	},
+	"C05": {
+		ID: "C05", Scenario: "execsim", Level: "fault_enumeration", Cpu: 2,
+		Quick:    tierSpec{Runs: 8000, Budget: 75 * time.Second, Variants: []string{"v0", "v3", "v4", "v5"}},
+		Thorough: tierSpec{Runs: 400000, Budget: 15 * time.Minute, Variants: []string{"v0", "v1", "v2", "v3", "v4", "v5", "v6"}},
+		Real:     append(append([]string{}, realExec...), "graphql/handler.Server + transport.POST for one third of the executions"), Stubbed: stubExec,
+		Rule: "one run = one (variant incl. worker_limit 0/1/2/8, operation with list fan-out and/or @defer, plan); a run without cancellation counts the K quiescent points, then the request context is cancelled at EVERY k in 0..K+1 (one execution each) under a seeded release order, resolvers either ignoring cancellation or returning ctx.Err(); transports: response function drained, response function read once (single-payload transport), handler.Server+POST. Oracle: once nothing is parked the request must be finished (else 'stuck' with the blocked stack); after the end and cancellation the bubble must contain no goroutine created by gqlgen/generated code. non-trivial = K >= 2; distinct = hash of (variant, operation, plan)",
+		Faults: "context cancellation at every quiescent point; resolvers ignoring or honouring cancellation; single-payload consumption of deferred operations",
+		Assume: []string{"SSE, multipart/mixed and websocket end-of-life are covered by the stream and websocket scenarios", "resolvers return promptly once released (premise of the property)"},
+	},
+	"C13": {
+		ID: "C13", Scenario: "execsim", Level: "exploration", Cpu: 2,
+		Quick:    tierSpec{Runs: 40000, Budget: 75 * time.Second, Variants: []string{"v0", "v1", "v3"}},
+		Thorough: tierSpec{Runs: 2000000, Budget: 15 * time.Minute, Variants: allCore},
+		Real:     realExec, Stubbed: stubExec,
+		Rule: "one run = one (variant, operation with @defer on a tape-chosen subset of fragments - nested, in lists, if:true/false/variable, shared/distinct/absent labels -, plan incl. failures inside groups, group completion order chosen by the scheduler). Oracle: payload sequence discipline (no path on the first, hasNext, termination, each (path,label) once, each field once), arrival-order applicability of every path, merged data == reference result (propagation stopping at objects whose group came back null, membership read from the payloads), no error the plain execution would not report. non-trivial = at least one incremental payload; distinct = hash of (variant, operation, plan, released-key sequence)",
+		Faults: "resolver null/error inside and outside deferred groups; directive block/error; group completion orders",
+		Assume: []string{"which fields gqlgen chooses to defer is not predicted (read from payloads)", "comparison of merged data is key-order-insensitive (order is C01's concern)"},
+	},
 }
